@@ -743,3 +743,33 @@ def replay(ctx, rep):   # noqa: F811
         common.use_repo()
         return common.scenario_replay(ctx, rep, {'resave': resave_scenarios})
     return _replay1(ctx, rep)
+
+
+# ---------------------------------------------------------------------------
+# the scenario families of harness/jsonscen.py in their XMI form (own PRNG streams 'C08:save-history' / 'C08:subpackages'):
+# save histories with FAILING saves in between, and same-named classes in nested sub-packages compared exactly
+
+def _xmi_scenarios():
+    import functools
+    from harness import jsonscen as JS
+    return {'save-history': functools.partial(JS.save_history_scenarios, fmt='xmi', prop='C08'),
+            'subpackages': functools.partial(JS.subpackage_scenarios, fmt='xmi', prop='C08')}
+
+
+_run2 = run
+
+
+def run(ctx, out):   # noqa: F811
+    _run2(ctx, out)
+    for name, f in _xmi_scenarios().items():
+        guarded(out, f'scenario family {name} (xmi)', f, ctx, out)
+
+
+_replay2 = replay
+
+
+def replay(ctx, rep):   # noqa: F811
+    if rep.get('case', {}).get('scenario') in ('save-history', 'subpackages'):
+        common.use_repo()
+        return common.scenario_replay(ctx, rep, _xmi_scenarios())
+    return _replay2(ctx, rep)
